@@ -13,12 +13,13 @@ import (
 	"strings"
 	"sync"
 	"sync/atomic"
+	"time"
 
+	"github.com/TheManticoreProject/Manticore/windows/guid"
 	kcl "github.com/TheManticoreProject/Manticore/windows/keycredential"
 	kccrypto "github.com/TheManticoreProject/Manticore/windows/keycredential/crypto"
 	"github.com/TheManticoreProject/Manticore/windows/keycredential/key"
 	kcutils "github.com/TheManticoreProject/Manticore/windows/keycredential/utils"
-	"github.com/TheManticoreProject/Manticore/windows/guid"
 
 	"verif/enum"
 	"verif/mc/explore"
@@ -32,14 +33,18 @@ func run(c *vf.Ctx) {
 	if err := rk.SelfTest(); err != nil {
 		c.Fatalf("%v", err)
 	}
-	c.Rule("credentials: choice tree over version {2,1,0} x modulus length {256,1,128,512} x exponent {65537,3,2^32-1} x prime lengths {(0,0),(64,64),(128,128),(64,0),(0,128)} x 10 device GUIDs x 10 tick values each for last-logon and creation (never 0) x 9 usages x 4 sources, " +
+	c.Rule("credentials: choice tree over version {2,1,0} x modulus length {256,1,128,512} x exponent {65537,3,2^32-1} x prime lengths {(0,0),(64,64),(128,128),(64,0),(0,128)} x 10 device GUIDs x 10 tick values each for last-logon and creation (never 0) x 9 usages x 4 sources x 9 CUSTOM_KEY_INFORMATION values (the constructor's and one per legal truncation point 2,3,4,5,9,19,20,32 bytes), " +
 		"explored with mc/explore to 2 (thorough 3) deviations from the default, plus the full product of the four key-shape parameters; identifier = the version's own encoding of SHA-256(key material). " +
 		"Faults: for every blob, every single-bit flip (exhaustive per blob); flips after the KeyHash entry are the obligation. DN-Binary: all strings of length <=4 (thorough 5) over {a = , : space é} and realistic DNs x binary lengths {0,1,2,3,255,256}. " +
 		"distinct = distinct serialised blobs / DN-Binary inputs reaching the comparison; flips are counted in tampered_blobs")
 	c.Assume("crypto/sha256 is correct; the blob layout is MS-ADTS 2.2.20 (version LE32, entries len16/type8/value; KeyID = SHA-256 of the KeyMaterial value, KeyHash = SHA-256 of all bytes after the KeyHash entry); no published blob is available offline, the reader is self-tested on a hand-assembled one")
-	c.Assume("usage/source other than the constructor's defaults are set through the exported fields followed by ComputeKeyHash (the constructor has no parameters for them); identifiers of other lengths than a SHA-256 are not enumerated; NewDateTime(0) (= now) is excluded")
+	c.Assume("usage/source/custom key information other than the constructor's defaults are set through the exported fields (CustomKeyInfo.FromBytes for the latter) followed by ComputeKeyHash (the constructor has no parameters for them); identifiers of other lengths than a SHA-256 are not enumerated; NewDateTime(0) (= now) is excluded")
+	t0 := time.Now()
 	creds(c)
+	c.Set("wall_s_credentials", time.Since(t0).Seconds())
+	t0 = time.Now()
 	dnBinary(c)
+	c.Set("wall_s_dn_binary", time.Since(t0).Seconds())
 }
 
 // ---------------------------------------------------------------- parameter lattices
@@ -57,16 +62,36 @@ var (
 		{A: 0xFFFFFFFF, B: 0xFFFF, C: 0xFFFF, D: 0xFFFF, E: 0xFFFFFFFFFFFF},
 		{A: 1 << 31}, {A: 1}, {B: 1 << 15}, {C: 1}, {D: 0x8000}, {E: 1 << 47}, {E: 1},
 	}
-	ticks = []uint64{132537600000000000, 1, 116444736000000000, 0x0102030405060708, 1<<63 - 1, 1 << 63, 1<<64 - 1, 184467440737095517, 24211015631452240, 2650467743999999999}
+	ticks   = []uint64{132537600000000000, 1, 116444736000000000, 0x0102030405060708, 1<<63 - 1, 1 << 63, 1<<64 - 1, 184467440737095517, 24211015631452240, 2650467743999999999}
 	usages  = []uint8{key.KeyUsage_NGC, key.KeyUsage_AdminKey, key.KeyUsage_STK, key.KeyUsage_BitlockerRecovery, key.KeyUsage_Other, key.KeyUsage_FIDO, key.KeyUsage_FEK, key.KeyUsage_DPAPI, 0xFF}
 	sources = []key.KeySource{key.KeySource_AD, key.KeySource_AzureAD, 2, 0xFF}
+	// CUSTOM_KEY_INFORMATION values (MS-ADTS): Version(1)=1 Flags(1) [VolumeType(1) [SupportsNotification(1) [FekKeyVersion(1)
+	// [KeyStrength(4) [Reserved(10) [EncodedExtendedCKI(var)]]]]]]. nil = what the constructor puts there. Every legal truncation point.
+	ckiForms = [][]byte{
+		nil,
+		{1, 2},
+		{1, 0, 1},
+		{1, 3, 2, 1},
+		{1, 0, 0, 0, 1},
+		{1, 2, 1, 1, 1, 0x02, 0, 0, 0x80},
+		append([]byte{1, 0, 1, 0, 1, 0x01, 0, 0, 0}, enum.Counter(10, 0xC1)...),
+		append(append([]byte{1, 1, 3, 1, 1, 0xFF, 0xFF, 0xFF, 0xFF}, enum.Counter(10, 0xD1)...), 0xEE),
+		append(append([]byte{1, 2, 0, 1, 0, 0, 0, 0, 0}, make([]byte, 10)...), enum.Counter(13, 0xE1)...),
+	}
 )
 
-type cfg struct{ ver, mod, exp, pr, gd, ll, cr, us, so int }
+func ckiName(i int) string {
+	if i == 0 {
+		return "constructor-default"
+	}
+	return fmt.Sprintf("%d-byte-value", len(ckiForms[i]))
+}
+
+type cfg struct{ ver, mod, exp, pr, gd, ll, cr, us, so, ck int }
 
 func (f cfg) String() string {
-	return fmt.Sprintf("version=0x%x modulus=%dB exponent=%d primes=(%d,%d)B deviceId=%s lastLogonTicks=%d creationTicks=%d usage=%d source=%d",
-		versions[f.ver], modLens[f.mod], exps[f.exp], primeLs[f.pr].p1, primeLs[f.pr].p2, guids[f.gd].ToFormatD(), ticks[f.ll], ticks[f.cr], usages[f.us], sources[f.so])
+	return fmt.Sprintf("version=0x%x modulus=%dB exponent=%d primes=(%d,%d)B deviceId=%s lastLogonTicks=%d creationTicks=%d usage=%d source=%d customKeyInfo=%x",
+		versions[f.ver], modLens[f.mod], exps[f.exp], primeLs[f.pr].p1, primeLs[f.pr].p2, guids[f.gd].ToFormatD(), ticks[f.ll], ticks[f.cr], usages[f.us], sources[f.so], ckiForms[f.ck])
 }
 
 func configs(c *vf.Ctx) []cfg {
@@ -86,6 +111,7 @@ func configs(c *vf.Ctx) []cfg {
 				ver: r.Choose(len(versions), "version"), mod: r.Choose(len(modLens), "modulus"), exp: r.Choose(len(exps), "exponent"),
 				pr: r.Choose(len(primeLs), "primes"), gd: r.Choose(len(guids), "deviceId"), ll: r.Choose(len(ticks), "lastLogon"),
 				cr: r.Choose(len(ticks), "creation"), us: r.Choose(len(usages), "usage"), so: r.Choose(len(sources), "source"),
+				ck: r.Choose(len(ckiForms), "customKeyInfo"),
 			}
 			r.ObserveS(fmt.Sprint(f))
 			add(f)
@@ -137,9 +163,14 @@ func build(f cfg) (*built, error) {
 	ver := key.KeyCredentialVersion{Value: versions[f.ver]}
 	id := kcutils.ComputeKeyIdentifier(mat.ToBytes(), ver)
 	k := kcl.NewKeyCredential(ver, id, mat, guids[f.gd], kcutils.NewDateTime(ticks[f.ll]), kcutils.NewDateTime(ticks[f.cr]))
-	if f.us != 0 || f.so != 0 {
+	if f.us != 0 || f.so != 0 || f.ck != 0 {
 		k.Usage.Value = usages[f.us]
 		k.Source = sources[f.so]
+		if f.ck != 0 {
+			if err := k.CustomKeyInfo.FromBytes(append([]byte{}, ckiForms[f.ck]...), ver); err != nil {
+				return nil, fmt.Errorf("CustomKeyInformation.FromBytes(%x): %v", ckiForms[f.ck], err)
+			}
+		}
 		k.RawBytes = nil
 		k.KeyHash = k.ComputeKeyHash()
 	}
@@ -226,7 +257,11 @@ func creds(c *vf.Ctx) {
 		c.Check("C14/blob/structure/LastLogonTime-ticks-le64", bytes.Equal(val(rk.LastLogon), binary.LittleEndian.AppendUint64(nil, ticks[f.ll])), wit(fmt.Sprintf("LastLogon %x", val(rk.LastLogon))))
 		c.Check("C14/blob/structure/CreationTime-ticks-le64", bytes.Equal(val(rk.Creation), binary.LittleEndian.AppendUint64(nil, ticks[f.cr])), wit(fmt.Sprintf("Creation %x", val(rk.Creation))))
 		cki := val(rk.CustomKeyInfo)
-		c.Check("C14/blob/structure/CustomKeyInformation-has-version-1-and-flags", len(cki) >= 2 && cki[0] == 1 && cki[1] == 0, wit(fmt.Sprintf("CUSTOM_KEY_INFORMATION value %x (MS-ADTS 2.2.22: Version(1)=1, Flags(1), ...)", cki)))
+		if f.ck == 0 {
+			c.Check("C14/blob/structure/CustomKeyInformation-entry/constructor-default/has-version-1-and-flags-0", len(cki) >= 2 && cki[0] == 1 && cki[1] == 0, wit(fmt.Sprintf("CUSTOM_KEY_INFORMATION value %x (MS-ADTS CUSTOM_KEY_INFORMATION: Version(1)=1, Flags(1), optional fields)", cki)))
+		} else {
+			c.Check("C14/blob/structure/CustomKeyInformation-entry/"+ckiName(f.ck)+"/equals-the-value-it-was-read-from", bytes.Equal(cki, ckiForms[f.ck]), wit(fmt.Sprintf("CUSTOM_KEY_INFORMATION value %x want %x", cki, ckiForms[f.ck])))
+		}
 
 		// --- parse(serialise(k)) field by field
 		k2 := &kcl.KeyCredential{}
@@ -252,8 +287,35 @@ func creds(c *vf.Ctx) {
 		fld("DeviceId", k2.DeviceId == guids[f.gd], k2.DeviceId, guids[f.gd])
 		fld("LastLogonTime", k2.LastLogonTime.Ticks == ticks[f.ll] && k2.LastLogonTime.Time.Equal(k.LastLogonTime.Time), k2.LastLogonTime, k.LastLogonTime)
 		fld("CreationTime", k2.CreationTime.Ticks == ticks[f.cr] && k2.CreationTime.Time.Equal(k.CreationTime.Time), k2.CreationTime, k.CreationTime)
-		fld("CustomKeyInfo", k2.CustomKeyInfo.Version == k.CustomKeyInfo.Version && k2.CustomKeyInfo.Flags.Value == k.CustomKeyInfo.Flags.Value,
-			fmt.Sprintf("{Version:%d Flags:%d}", k2.CustomKeyInfo.Version, k2.CustomKeyInfo.Flags.Value), fmt.Sprintf("{Version:%d Flags:%d}", k.CustomKeyInfo.Version, k.CustomKeyInfo.Flags.Value))
+		{
+			// expected CUSTOM_KEY_INFORMATION fields, decoded here from the value by the MS-ADTS layout
+			raw := ckiForms[f.ck]
+			if raw == nil {
+				raw = []byte{1, 0}
+			}
+			g := k2.CustomKeyInfo
+			ok := g.Version == int(raw[0]) && g.Flags.Value == raw[1]
+			if len(raw) >= 3 {
+				ok = ok && g.VolumeType.Value == raw[2]
+			}
+			if len(raw) >= 4 {
+				ok = ok && g.SupportsNotification == (raw[3] != 0)
+			}
+			if len(raw) >= 5 {
+				ok = ok && g.FekKeyVersion == raw[4]
+			}
+			if len(raw) >= 9 {
+				ok = ok && g.Strength.Value == binary.LittleEndian.Uint32(raw[5:])
+			}
+			if len(raw) >= 19 {
+				ok = ok && bytes.Equal(g.Reserved, raw[9:19])
+			}
+			if len(raw) > 19 {
+				ok = ok && bytes.Equal(g.EncodedExtendedCKI, raw[19:])
+			}
+			fld("CustomKeyInfo/"+ckiName(f.ck), ok, fmt.Sprintf("{Version:%d Flags:%d VolumeType:%d SupportsNotification:%v FekKeyVersion:%d Strength:%d Reserved:%x Extended:%x}",
+				g.Version, g.Flags.Value, g.VolumeType.Value, g.SupportsNotification, g.FekKeyVersion, g.Strength.Value, g.Reserved, g.EncodedExtendedCKI), fmt.Sprintf("the fields of %x", raw))
+		}
 
 		// --- serialise(parse(b)) = b
 		var b2 []byte
@@ -277,10 +339,10 @@ func creds(c *vf.Ctx) {
 				}
 			}
 			c.Check("C14/roundtrip/serialise(parse(b))/entries-other-than-CustomKeyInformation", okOther, wit(fmt.Sprintf("re-serialised %s", vf.Hex(b2))))
-			c.Check("C14/roundtrip/serialise(parse(b))/CustomKeyInformation-entry", okCKI, wit(fmt.Sprintf("re-serialised %s", vf.Hex(b2))))
+			c.Check("C14/roundtrip/serialise(parse(b))/CustomKeyInformation-entry/"+ckiName(f.ck), okCKI, wit(fmt.Sprintf("re-serialised %s", vf.Hex(b2))))
 		} else if same {
 			c.Pass("C14/roundtrip/serialise(parse(b))/entries-other-than-CustomKeyInformation", 1)
-			c.Pass("C14/roundtrip/serialise(parse(b))/CustomKeyInformation-entry", 1)
+			c.Pass("C14/roundtrip/serialise(parse(b))/CustomKeyInformation-entry/"+ckiName(f.ck), 1)
 		}
 
 		// --- integrity of untampered credentials
